@@ -963,6 +963,10 @@ class BatchMessage(_MessageType):
                 write_value(f, param)
 
         write_consistency_level(f, self.consistency_level)
+        if self.keyspace is not None and not ProtocolVersion.uses_keyspace_flag(protocol_version):
+            raise UnsupportedOperation(
+                "Keyspaces may only be set on queries with protocol version "
+                "5 or higher. Consider setting Cluster.protocol_version to 5.")
         if protocol_version >= 3:
             flags = 0
             if self.serial_consistency_level:
